@@ -25,16 +25,18 @@ func FixedEnv() *Env {
 	r := &Decl{Name: "R", IsStruct: true, Recursive: true}
 	r.Fields = []Field{{Name: "V", Type: B("int")}, {Name: "Next", Type: PtrTo(NamedT(r))}, {Name: "Kids", Type: SliceOf(NamedT(r))}, {Name: "M", Type: MapOf(B("string"), PtrTo(NamedT(r)))}}
 	e.KeyStructs = []*Decl{k0}
-	e.Structs = []*Decl{k0, s0, r}
+	// every field that takes part in == is basic, a blank field makes the struct type not comparable
+	bk := &Decl{Name: "Bk", IsStruct: true, Fields: []Field{{Name: "A", Type: B("int")}, {Name: "_", Type: SliceOf(B("int"))}, {Name: "B", Type: B("string")}}}
+	e.Structs = []*Decl{k0, s0, r, bk}
 	return e
 }
 
 // Enumerate lists every type expression up to the given constructor depth over the fixed
-// environment: leaves {int, string, float64, bool, byte, MyInt, S0, ext.E0, R, other.O0} and constructors
+// environment: leaves {int, string, float64, bool, byte, MyInt, S0, ext.E0, R, other.O0, Bk} and constructors
 // {*T, []T, [2]T, map[string]T, map[K0]T}.
 func Enumerate(e *Env, depth int) []*Type {
 	leaves := []*Type{B("int"), B("string"), B("float64"), B("bool"), B("byte"), NamedT(e.NamedBasic[0]),
-		NamedT(e.Structs[1]), NamedT(e.ExtStructs[0]), NamedT(e.Structs[2]), NamedT(e.ExtStructs[2])}
+		NamedT(e.Structs[1]), NamedT(e.ExtStructs[0]), NamedT(e.Structs[2]), NamedT(e.ExtStructs[2]), NamedT(e.Structs[3])}
 	k0 := NamedT(e.KeyStructs[0])
 	level := leaves
 	all := append([]*Type{}, leaves...)
